@@ -648,18 +648,33 @@ def minTTL : List RR → Option Nat
     | none => some rr.ttl
     | some t => some (min rr.ttl t)
 
-/-- `cacheTTL` ≠ 0 for the responses the scripted upstream can give -/
-def cacheable (u : Upstream) (q : Query) : Bool :=
-  match minTTL u.answer with
-  | none => false
-  | some t =>
-    t != 0 && u.rcode == rcSuccess &&
-    ((q.qtype != tA && q.qtype != tAAAA) ||
-     u.answer.any (fun rr => match rr.data with | .a _ => true | .aaaa _ => true | _ => false))
+def rcServFailCacheTTL : Nat := 30
+
+/-- `cacheTTL` for the responses the scripted upstream can give (no authority
+section): `none` = not cached.  NOERROR is cached for the lowest record TTL when
+it has records and, for A / AAAA questions, an address record; SERVFAIL is
+cached for at most 30 s — even without any record; NXDOMAIN (no SOA here),
+REFUSED and the rest are not cached. -/
+def cacheTTL (u : Upstream) (q : Query) : Option Nat :=
+  if u.rcode = rcSuccess then
+    match minTTL u.answer with
+    | none => none
+    | some t =>
+      if t != 0 &&
+         ((q.qtype != tA && q.qtype != tAAAA) ||
+          u.answer.any (fun rr => match rr.data with | .a _ => true | .aaaa _ => true | _ => false))
+      then some t else none
+  else if u.rcode = rcServFail then
+    match minTTL u.answer with
+    | none => some rcServFailCacheTTL
+    | some t => if t = 0 then none else some (min t rcServFailCacheTTL)
+  else none
+
+def cacheable (u : Upstream) (q : Query) : Bool := (cacheTTL u q).isSome
 
 /-- the stored message as a hit returns it: all TTLs equal (the remaining lifetime) -/
-def agedCopy (u : Upstream) : Upstream :=
-  match minTTL u.answer with
+def agedCopy (u : Upstream) (q : Query) : Upstream :=
+  match cacheTTL u q with
   | none => u
   | some t => { u with answer := u.answer.map (fun rr => { rr with ttl := t }) }
 
@@ -684,7 +699,7 @@ def handleCached (e : Engines) (c : Conf) (cache : Cache) (u : Upstream) (q : Qu
   | none =>
     let o := handle e c u q
     (o, if contacted o && cacheable u q then
-          { name := lower q.name, qtype := q.qtype, msg := agedCopy u } :: cache
+          { name := lower q.name, qtype := q.qtype, msg := agedCopy u q } :: cache
         else cache)
 
 /-- the upstream message the step actually works on -/
